@@ -11,6 +11,7 @@ NOTE = ("Trusted base: z3 5.1; the engine's fork/replay logic; the numpy/pandas 
         "lru_cache/joblib transparency; the size bounds listed in the evidence file.")
 
 CLAIMED = {
+    "C09": ("2 (C09)", "EnsembleForecaster (mean/median/min/max), TransformedTargetForecaster (with skip-inverse tags, transform/inverse_transform), MultiplexForecaster, StackingForecaster and two nestings executed symbolically around recording member / transformer / meta-regressor stubs with uninterpreted outputs; forecasts proved equal to the composition of the parts, and the data every inner estimator receives at fit and after an update proved to be in the right representation."),
     "C07": ("2 (C07)", "The real evaluate() executed symbolically with the real expanding / sliding / single-window splitters (symbolic window, step, horizon, index origin, series values), a recording forecaster and an asymmetric uninterpreted scoring function; per fold the row's cutoff, training-window length and score = S(y_true, y_pred), the data handed to fit/update/predict, absence of leakage, X slices and returned data are proved for every path."),
     "C05": ("2 (C05)", "make_reduction with the four strategies and both scitypes executed symbolically around a recording regressor stub whose predictions are uninterpreted functions; every training row / target / prediction input is proved to be exactly the documented lag window (symbolic series values and index origin; window, horizon and series length forked within the bounds); recursive and dirrec forecasts proved equal to an independently built reference recursion."),
     "C06": ("2 (C06)", "Each of the 18 metric functions executed symbolically on free real truth/forecast/benchmark/training values, horizon weights and multioutput weights (shapes forked within the bounds); the returned term is proved equal to the textbook formula written independently (z3: UF-abstraction with semantic canonicalisation, then nonlinear real arithmetic), plus the laws (non-negativity, zero at a perfect forecast, sMAPE symmetry and bound, scale invariance, geometric-mean floor) and class-wrapper = function."),
